@@ -639,3 +639,71 @@ def x_respell_user_data(w, s, st, info):
     if got is None or canon(got.data) != canon(data):
         w.flag('C02', 'prop_set_get', {'kind': s['kind'], 'name': 'user_data', 'via': 'respelled'},
                'user data %s stored as %r reads back %r' % (canon(data), text, got))
+
+
+# ================================================================ deep sliver written into another graph and rebuilt
+@op('sliver_copy', 'read')
+def g_sliver_copy(w, rng, st):
+    nodes = st.of_class('NetworkNode')
+    if not nodes:
+        return None
+    # nodes with the richest containment first
+    nodes.sort(key=lambda n: -len(st.own_node(n)))
+    n = nodes[0] if rng.random() < 0.5 else rng.choice(nodes)
+    w.idc += 1
+    return {'node': st.name(n), 'tag': 'cp%d' % w.idc}
+
+
+@op('sliver_copy', 'read')
+def x_sliver_copy(w, s, st, info):
+    """get_sliver() of a node, written as a deep sliver into a fresh graph (new ids), rebuilt from there, compared"""
+    from fim.graph.slices.networkx_asm import NetworkxASM
+    ids = [n for n in st.by_name('NetworkNode', s['node'])]
+    _exists_or_skip(ids)
+    own = st.own_node(ids[0])
+    names = {}
+    for x in own:          # children must be unique by (kind, name) for the tree comparison
+        key = (st.cls(x), st.name(x), tuple(sorted(st.service_of_cp(x) + st.parent_cp(x) + st.owner_of_service(x) +
+                                                   st.node_of_component(x))) if x != ids[0] else ())
+        if key in names:
+            raise SkipStep()
+        names[key] = x
+    e = get_node(w, s['node'])
+    sl = e.get_sliver()
+    tag = s['tag']
+
+    def retag(x):
+        x.node_id = '%s-%s' % (tag, x.node_id)
+        for c in sliver_children(x).values():
+            retag(c)
+    retag(sl)
+    gid = 'scratch-' + tag
+    asm = NetworkxASM(graph_id=gid, importer=w.imp)
+    try:
+        asm.add_network_node_sliver(sliver=sl)
+        back = asm.build_deep_node_sliver(node_id=sl.node_id)
+    except Exception as ex:
+        w.flag('C02', 'sliver_from_graph', {'symptom': 'deep_write_raised', 'exc': type(ex).__name__},
+               'writing the deep sliver of node %s into a fresh graph (or rebuilding it) raised %s: %s' %
+               (s['node'], type(ex).__name__, str(ex)[:200]))
+        w.imp.delete_graph(graph_id=gid)
+        return
+    d = sliver_tree_diff(sl, back, 'node %s' % s['node'])
+    if d:
+        w.flag('C02', 'sliver_from_graph', {'symptom': 'deep_write', 'field': d[0]},
+               'a deep sliver written into a graph and rebuilt from it differs: %s' % d[1])
+    else:
+        ids_a = sorted(x.node_id for x in walk(sl))
+        ids_b = sorted(x.node_id for x in walk(back))
+        if ids_a != ids_b:
+            w.flag('C02', 'sliver_from_graph', {'symptom': 'deep_write_ids'}, 'node ids differ after the deep write: %s vs %s' %
+                   (ids_a[:4], ids_b[:4]))
+    w.imp.delete_graph(graph_id=gid)
+    w.stats.inc('probe.sliver_copy')
+
+
+def walk(sl):
+    yield sl
+    for c in sliver_children(sl).values():
+        for x in walk(c):
+            yield x
